@@ -64,6 +64,8 @@ CONSTANTS
   PropSet = {propset}
   WithBatch = {withbatch}
   WithBurst = {withburst}
+  WithFaults = {withfaults}
+  FaultPairs = {faultpairs}
   MaxStates = {maxstates}
 VIEW View
 CONSTRAINT Bound
@@ -104,6 +106,8 @@ def canon_step(step: dict) -> dict:
     r = {"op": step["op"], "ev": step.get("ev", ""), "gv": dict(gv)}
     if step["op"] == "batch":
         r["evs"] = list(step.get("evs") or [])
+    if step.get("faults"):
+        r["faults"] = sorted(step["faults"])
     return r
 
 
@@ -132,13 +136,16 @@ def _set(xs) -> str:
 
 
 def model_check(built: List[Built], workdir: str, *, engine="sync", gvals=("T", "F"), with_can=False,
-                workers=4, timeout=1800, coverage=False, props=ALL_PROPS, max_states=10 ** 8, with_batch=False, with_burst=False) -> Tuple[tla.TLCResult, List[Edge]]:
+                workers=4, timeout=1800, coverage=False, props=ALL_PROPS, max_states=10 ** 8, with_batch=False, with_burst=False, with_faults=False,
+                fault_pairs=False) -> Tuple[tla.TLCResult, List[Edge]]:
     os.makedirs(workdir, exist_ok=True)
     tla.write_batch(os.path.join(workdir, "Batch.tla"), [b.defn for b in built])
     cfg = MC_CFG.format(engine=engine, gvals="{" + ", ".join(f'"{g}"' for g in gvals) + "}",
                         withcan="TRUE" if with_can else "FALSE", propset=_set(props),
                         maxstates=max_states, withbatch="TRUE" if with_batch else "FALSE",
-                        withburst="TRUE" if with_burst else "FALSE")
+                        withburst="TRUE" if with_burst else "FALSE",
+                        withfaults="TRUE" if with_faults else "FALSE",
+                        faultpairs="TRUE" if fault_pairs else "FALSE")
     edges: List[Edge] = []
     res = tla.run_tlc("MCCore", cfg, workdir, workers=workers, timeout=timeout, coverage=coverage,
                       json_sink=lambda o: edges.append(Edge(o)))
